@@ -18,7 +18,8 @@ RULE_TEXT = ("C14-W compile-fail witnesses: colliding declaration pairs produced
              "slot only where it was None and returns Err of the matching kind where occupied, slot choice follows "
              "is_query; insert hands every expanded path to insert_at and returns its result; interface consumes the "
              "result by unwrap/expect/?/match; children are keyed by the whole part."
-             " C14-T/C14-D: on every witness interface each declared spelling reaches its own handler and the dispatcher has one arm with a distinct key per declaration (rules C01-T/D) - no declaration is shadowed by a colliding id.")
+             " C14-T/C14-D: on every witness interface each declared spelling reaches its own handler and the dispatcher has one arm with a distinct key per declaration (rules C01-T/D) - no declaration is shadowed by a colliding id."
+             " C14-C01M: the run-time lookup matches a mnemonic against a key by eq_ignore_ascii_case and nothing looser (rule C01-M), the relation the compile-time collision test uses.")
 
 INSERT_AT = "microscpi_macros::tree::Tree::insert_at"
 INSERT = "microscpi_macros::tree::Tree::insert"
@@ -105,6 +106,13 @@ def run(ck):
     # its own handler - distinct match keys, one arm per declaration (the dispatcher rules C01-T/D)
     import c01
     c01.rule_T(ck, T="C14-T", D="C14-D")
+    # the compile-time collision test compares spellings exactly (ignoring case); it decides reachability only if the
+    # run-time lookup uses the same relation - Node::child matches a mnemonic against a key by eq_ignore_ascii_case and
+    # nothing looser (rule C01-M)
+    lib = ctx.lib(ck)
+    if lib is not None:
+        with ck.under("C01-", "C14-C01"):
+            c01.rule_M(ck, lib)
     n = 200 if ck.tier == "thorough" else 30
     cases = hand_cases() + generated_pairs(ck.seed, n)
     specs = []
